@@ -160,32 +160,36 @@ Theorem C16_idempotent_nowrap : forall o m text m',
 Proof. exact (write_idempotent_nowrap fmtv fmt_diff fmt_pi fstr fzero numeq). Qed.
 
 (* ---- truthfulness ---- *)
-(* need_of: writer.py's `index_changed or stop_is_different`.  With index_initial set the
+(* need_of f: writer.py's `index_changed or stop_is_different`, f = the format of the index
+   column (col_fmt o 0): the file's STOP "disagrees with its data" when it differs from the
+   value that f PRINTS for the last index cell, float(f % index_initial[-1]) != STOP.value
+   (numeq (fmtv f t) stop), so a format that loses digits refreshes on the first write and the
+   header states what the data section shows.  With index_initial set the
    decision reads las.index: the hypothesis "at least one curve" of the next three theorems
    excludes exactly the case where that raises IndexError (C16_no_curve_raises). *)
-Theorem C16_need_created : forall m, m_index_initial m = None -> need_of numeq m = Some true.
-Proof. exact (need_created numeq). Qed.
+Theorem C16_need_created : forall f m, m_index_initial m = None -> need_of fmtv numeq f m = Some true.
+Proof. exact (need_created fmtv numeq). Qed.
 
-Theorem C16_need_changed : forall m iv lastc rr svv,
+Theorem C16_need_changed : forall f m iv lastc rr svv,
   m_index_initial m = Some iv -> s_items (l_curves (m_las m)) <> [] -> rev iv = lastc :: rr ->
   item_value_by (s_transforms (l_well (m_las m))) (s2l "STOP") (s_items (l_well (m_las m))) = Some svv ->
   cells_equal numeq iv (index_of (m_las m)) = false ->
-  need_of numeq m = Some true.
-Proof. exact (need_changed numeq). Qed.
+  need_of fmtv numeq f m = Some true.
+Proof. exact (need_changed fmtv numeq). Qed.
 
-Theorem C16_need_stop_differs_int : forall m iv t rr z,
+Theorem C16_need_stop_differs_int : forall f m iv t rr z,
   m_index_initial m = Some iv -> s_items (l_curves (m_las m)) <> [] -> rev iv = CNum t :: rr ->
   item_value_by (s_transforms (l_well (m_las m))) (s2l "STOP") (s_items (l_well (m_las m))) = Some (VInt z) ->
-  numeq t (z_to_str z) = false ->
-  need_of numeq m = Some true.
-Proof. exact (need_stop_differs_int numeq). Qed.
+  numeq (fmtv f t) (z_to_str z) = false ->
+  need_of fmtv numeq f m = Some true.
+Proof. exact (need_stop_differs_int fmtv numeq). Qed.
 
-Theorem C16_need_stop_differs_float : forall m iv t rr x,
+Theorem C16_need_stop_differs_float : forall f m iv t rr x,
   m_index_initial m = Some iv -> s_items (l_curves (m_las m)) <> [] -> rev iv = CNum t :: rr ->
   item_value_by (s_transforms (l_well (m_las m))) (s2l "STOP") (s_items (l_well (m_las m))) = Some (VFloat x) ->
-  numeq t x = false ->
-  need_of numeq m = Some true.
-Proof. exact (need_stop_differs_float numeq). Qed.
+  numeq (fmtv f t) x = false ->
+  need_of fmtv numeq f m = Some true.
+Proof. exact (need_stop_differs_float fmtv numeq). Qed.
 
 (* aligned_unit l: curve 0's unit when it is not empty, else the unit of the item under STRT *)
 Theorem C16_units_aligned : forall o m text m',
@@ -206,7 +210,7 @@ Proof. exact (write_units_aligned fmtv fmt_diff fmt_pi fstr fzero numeq). Qed.
    without) *)
 Theorem C16_truth : forall o m text m' a rest z rr,
   write o m = WOk text m' ->
-  need_of numeq m = Some true ->
+  need_of fmtv numeq (col_fmt o 0%nat) m = Some true ->
   index_of (m_las m) = CNum a :: rest -> rev (index_of (m_las m)) = CNum z :: rr ->
   let trw := s_transforms (l_well (m_las m)) in
   let u := aligned_unit (m_las m) in
@@ -223,7 +227,7 @@ Proof. exact (write_truth fmtv fmt_diff fmt_pi fstr fzero numeq). Qed.
 Theorem C16_truth_texts : forall o m text m' a rest z rr,
   (forall t, fmtv (col_fmt o 0%nat) t <> []) ->
   write o m = WOk text m' ->
-  need_of numeq m = Some true ->
+  need_of fmtv numeq (col_fmt o 0%nat) m = Some true ->
   index_of (m_las m) = CNum a :: rest -> rev (index_of (m_las m)) = CNum z :: rr ->
   let trw := s_transforms (l_well (m_las m)) in
   exists s p e,
@@ -241,7 +245,7 @@ Proof. exact (write_truth_texts fmtv fmt_diff fmt_pi fstr fzero numeq). Qed.
 (* a NaN second sample: the first increment is NaN and STEP says so *)
 Theorem C16_truth_step_nan : forall o m text m' a rest z rr,
   write o m = WOk text m' ->
-  need_of numeq m = Some true ->
+  need_of fmtv numeq (col_fmt o 0%nat) m = Some true ->
   index_of (m_las m) = CNum a :: CNaN :: rest -> rev (index_of (m_las m)) = CNum z :: rr ->
   str_eqb (fmtv (col_fmt o 0%nat) a) (fmtv (col_fmt o 0%nat) z) = false ->
   exists e, sect_find (s_transforms (l_well (m_las m))) (s2l "STEP") (s_items (l_well (m_las m'))) = Some e /\
@@ -318,7 +322,7 @@ Example C16_ex_write_ok :
   end.
 Proof. vm_compute. repeat split; reflexivity. Qed.
 
-Example C16_ex_need : need_of t_numeq (ex_m false) = Some true /\
+Example C16_ex_need : need_of t_fmtv t_numeq (s2l "%.5f") (ex_m false) = Some true /\
                       index_of (m_las (ex_m false)) = CNum (s2l "1.0") :: tl ex_idx /\
                       rev (index_of (m_las (ex_m false))) = CNum (s2l "3.0") :: tl (rev ex_idx).
 Proof. vm_compute. repeat split; reflexivity. Qed.
@@ -363,6 +367,23 @@ Example C16_ex_step_nan :
   | WErr _ => False
   end.
 Proof. vm_compute. reflexivity. Qed.
+
+(* a file whose STOP equals its last index value digit for digit: no refresh with a format that
+   prints the value as it is, refresh with one that loses digits (toy: keeps three characters) *)
+Definition ex_idx2 : list cell := [CNum (s2l "1.00"); CNum (s2l "2.00"); CNum (s2l "3.25")].
+Definition ex_las_exact : las :=
+  mklas (ex_version false)
+        (mksect [ex_it "STRT" "M" (VFloat (s2l "1.00")) ""; ex_it "STOP" "M" (VFloat (s2l "3.25")) "";
+                 ex_it "STEP" "M" (VFloat (s2l "1.00")) ""; ex_it "NULL" "" (VFloat (s2l "-999.25")) ""] false)
+        ex_curves ex_params [] [] [ex_idx2; [CNum (s2l "5"); CNaN; CNum (s2l "7")]] false.
+Example C16_ex_lossy_format :
+  need_of t_fmtv t_numeq (s2l "%.5f") (mkmlas ex_las_exact (Some ex_idx2)) = Some false /\
+  need_of (fun _ t => firstn 3 t) t_numeq (s2l "%.1f") (mkmlas ex_las_exact (Some ex_idx2)) = Some true /\
+  match write (fun _ t => firstn 3 t) t_fmt_diff t_fmt_pi t_fstr t_fzero t_numeq (ex_o None) (mkmlas ex_las_exact (Some ex_idx2)) with
+  | WOk _ m' => map i_value (firstn 2 (s_items (l_well (m_las m')))) = [VStr (s2l "1.0"); VStr (s2l "3.2")]
+  | WErr _ => False
+  end.
+Proof. vm_compute. repeat split; reflexivity. Qed.
 
 (* no curve: raises when index_initial is set, STRT/STOP/STEP None -> 0 (unit M) when it is not *)
 Definition ex_las_nocurve : las :=
